@@ -69,7 +69,11 @@ def mk_area(rng):
     if r < 0.62:
         lo = rng.randint(-32, 0) / 64
         return A.PQAreaSTATCOM(lo, lo + rng.randint(0, 48) / 64), "statcom"
-    if r < 0.74:
+    if r < 0.68:
+        # VDE 4130 (EHV): PQArea4130 + interpolated QV limits, evaluated per element like the polygon areas (oracle)
+        cls = rng.choice([A.PQVArea4130V1, A.PQVArea4130V2, A.PQVArea4130V3])
+        return cls(vn_kv=rng.choice([380, 220]), raise_merge_overlap=False), "poly"
+    if r < 0.76:
         return A.PQVArea4110(raise_merge_overlap=False), "poly"
     if r < 0.86:
         return A.PQVArea4105(rng.choice([1, 2]), raise_merge_overlap=False), "poly"
@@ -301,13 +305,13 @@ def compare(impl, mod, ctx=None):
 def run(ctx):
     rng = ctx.rng
     all_terms, all_impls, all_desc = [], [], []
-    for k in range(ctx.n(220, 2500)):
+    for k in range(ctx.n(180, 2500)):
         terms, impls, desc = one_case(ctx, rng)
         for t, i in zip(terms, impls):
             all_terms.append(t)
             all_impls.append(i)
             all_desc.append(desc)
-    model = ctx.coq_eval("c33", "Base.QN C33.Model", all_terms, shard=40)
+    model = ctx.coq_eval("c33", "Base.QN C33.Model", all_terms, shard=40, timeout=1200)
     for impl, mod, desc in zip(all_impls, model, all_desc):
         ctx.corr_checked += 1
         w = compare(impl, mod, ctx)
